@@ -642,6 +642,21 @@ func genDefrag(ctx *Ctx, emit func(any, string)) {
 		root2 := &Node{T: "stack", Kind: "BASIC", Els: []*Node{dfCondOf(ints(0, 0, 0, 0, 0, 9), ""), ints(1)}}
 		emit(mk(nil, root2), "witness")
 	}
+	// -- length is no limit: five single gaps in 4300 / 6000 elements (layouts on which
+	// the truncation formula is right: last element non-nil)
+	for _, total := range []int{4300, 6000} {
+		if total > 5000 && ctx.Quick() {
+			continue
+		}
+		vs := make([]int, total)
+		for i := range vs {
+			vs[i] = 1 + i%9
+		}
+		for g := 0; g < 5; g++ {
+			vs[5+10*g] = 0 // the first gap lies before the scan limit
+		}
+		emit(mk(nil, ints(vs...)), "witness")
+	}
 	// -- depth is no limit: a fragmented Stack at the bottom of chains of 49..80 nested Stacks
 	for _, depth := range []int{49, 50, 51, 52, 60, 80} {
 		n := ints(1, 0, 0, 2, 0, 0, 0, 3)
